@@ -15,6 +15,7 @@ FMT = '%Y-%m-%dT%H:%M:%S'
 def config(tier):
     return {
         'level': 'exploration',
+        'cold_sample': 4 if tier == 'quick' else 30,
         'cases': 7000 if tier == 'quick' else 120000,
         'budget_s': 45 if tier == 'quick' else 560,
         'floors': {'cases': 400, 'boundary_entries': 800, 'removed': 300,
